@@ -1128,8 +1128,15 @@ func (sc *serverConn) handleHeaderFrame(strm *Stream, fr *FrameHeader) error {
 	// fields join the request headers, which is the nearest thing fasthttp's
 	// request has to a place for them.
 	// https://httpwg.org/specs/rfc7540.html#rfc.section.8.1
-	if strm.headersFinished && !fr.Flags().Has(FlagEndStream|FlagEndHeaders) {
-		return NewGoAwayError(ProtocolError, "stream not open")
+	if strm.headersFinished {
+		if !fr.Flags().Has(FlagEndStream) {
+			return NewGoAwayError(ProtocolError, "stream not open")
+		}
+
+		// Like any header block the trailer may be continued: END_HEADERS can
+		// arrive on a CONTINUATION frame, and the request is not complete
+		// until it does.
+		strm.headersFinished = fr.Flags().Has(FlagEndHeaders)
 	}
 
 	if headerFrame, ok := fr.Body().(*Headers); ok && headerFrame.Stream() == strm.ID() {
